@@ -136,12 +136,12 @@ Proof. exact clog_once. Qed.
 Print Assumptions C12_clog_once.
 
 (* ForceClose closes: once the protocol has executed a queued ForceClose, every later poll of either
-   Connection task of that stream ends it, whatever happens in between (as long as no new stream has
-   been set up, which needs both tasks to have ended). *)
+   Connection task of that stream ends it, under any cooperative budget and whatever happens in between
+   (as long as no new stream has been set up, which needs both tasks to have ended). *)
 Theorem C12_force_close_closes :
-  forall (c : cfg) (s : st) (x : bool) (ts : list step) (z : bool),
+  forall (c : cfg) (s : st) (x : bool) (ts : list step) (z : bool) (b : N),
     e_cmds (hn s x) <> 0 ->
-    let s' := fst (run c s (SCmd x :: ts ++ [SConn z])) in
+    let s' := fst (run c s (SCmd x :: ts ++ [SConn z b])) in
     per s' = per s -> e_alive (cn s' z) = false.
 Proof. exact force_close_closes. Qed.
 Print Assumptions C12_force_close_closes.
@@ -267,9 +267,9 @@ Print Assumptions C12_reserve_before_read.
 
 (* ... and a poll of the Connection that cannot get a slot leaves the inbound substream alone. *)
 Theorem C12_no_read_without_slot :
-  forall (c : cfg) (x : bool) (s : st),
+  forall (c : cfg) (x : bool) (b : N) (s : st),
     e_alive (cn s x) = true -> can_reserve c x s = false ->
-    let s' := conn_poll c x s in
+    let s' := conn_poll c x b s in
     carrier (glo s' (negb x)) = carrier (glo s (negb x)) /\ e_nq (hn s' x) = e_nq (hn s x).
 Proof. exact read_needs_slot. Qed.
 Print Assumptions C12_no_read_without_slot.
@@ -277,28 +277,28 @@ Print Assumptions C12_no_read_without_slot.
 (* ---------------------------------------------------------------- nothing is stuck behind a free slot *)
 
 (* Each stage of the pipeline moves its head on as soon as the next stage has room, whatever the state.
-   (1) One poll of the sending Connection with the carrier accepting writes sends the parked
-   notification and both queues completely (sizes within the maximum), in an order that keeps each
-   mode's order. *)
+   (1) One poll of the sending Connection with the carrier accepting writes and a cooperative budget
+   larger than the number of queued notifications sends the parked notification and both queues
+   completely (sizes within the maximum), in an order that keeps each mode's order. *)
 Theorem C12_outbound_progress :
-  forall (c : cfg) (x : bool) (s : st),
-  e_alive (cn s x) = true -> wgate (glo s x) = true ->
+  forall (c : cfg) (x : bool) (b : N) (s : st),
+  e_alive (cn s x) = true -> wgate (glo s x) = true -> qlen s x < b ->
   Forall (fun n => n_len n <= c_max (ecf c x)) (opt_list (e_cur (cn s x)) ++ e_sq (cn s x) ++ e_aq (cn s x)) ->
-  let '(s1, refused) := out_phase c x s in
+  let '(s1, refused) := out_phase c x b s in
   refused = false /\ e_cur (cn s1 x) = None /\ e_sq (cn s1 x) = [] /\ e_aq (cn s1 x) = [] /\ e_sk (cn s1 x) = [] /\
   (Forall (fun n => n_sync n = true) (e_sq (cn s x)) -> Forall (fun n => n_sync n = false) (e_aq (cn s x)) ->
    forall k m, proj k m (carrier (glo s1 x)) = proj k m (pipe s x)).
 Proof. exact outbound_progress. Qed.
 Print Assumptions C12_outbound_progress.
 
-(* (2) One poll of the receiving Connection that can get a slot of the handle channel moves (at least)
-   the first frame of the carrier into that channel. *)
+(* (2) One poll of the receiving Connection (budget larger than what it has queued for sending) that
+   can get a slot of the handle channel moves (at least) the first frame of the carrier into it. *)
 Theorem C12_inbound_progress :
-  forall (c : cfg) (y : bool) (s : st) (n : notif) (rest : list notif),
-  e_alive (cn s y) = true -> e_shut (cn s y) = false -> killed s = false ->
-  snd (out_phase c y s) = false -> can_reserve c y s = true ->
+  forall (c : cfg) (y : bool) (b : N) (s : st) (n : notif) (rest : list notif),
+  e_alive (cn s y) = true -> e_shut (cn s y) = false -> killed s = false -> qlen s y < b ->
+  snd (out_phase c y b s) = false -> can_reserve c y s = true ->
   rgate (glo s (negb y)) = true -> carrier (glo s (negb y)) = n :: rest -> n_len n <= c_max (ecf c y) ->
-  exists more, e_nq (hn (conn_poll c y s) y) = e_nq (hn s y) ++ n :: more.
+  exists more, e_nq (hn (conn_poll c y b s) y) = e_nq (hn s y) ++ n :: more.
 Proof. exact inbound_progress. Qed.
 Print Assumptions C12_inbound_progress.
 
@@ -330,7 +330,7 @@ Definition ex_cfg : cfg := mkCfg (mkEC 2 1 4 2 64) (mkEC 2 2 4 2 64).
 Example C12_example_both_directions :
   let ts := [SOpen true; SOpen false; SHandle true 128; SHandle false 128;
              SSync true 1 4; SSync false 2 5; SAsyncStart true 0 3 6; SAsyncStart false 1 4 7; SSync true 5 8;
-             SConn false; SConn true; SConn false; SConn true;
+             SConn false BIG; SConn true 1; SConn true BIG; SConn false 128; SConn true 2;
              SHandle true 128; SHandle false 128; SHandle true 128; SHandle false 128; SHandle false 128] in
   let s := final ex_cfg [[true; false; true]; [false; true]] ts in
   e_del (gl s false) = [mkN true 1 true 1 4; mkN true 1 false 3 6; mkN true 1 true 5 8] /\
@@ -343,7 +343,7 @@ Proof. vm_compute. repeat split; reflexivity. Qed.
 Example C12_example_async_waiters :
   let ts := [SOpen true; SOpen false; SHandle true 128; SGate true false true;
              SAsyncStart true 10 1 40; SAsyncStart true 11 2 40; SAsyncStart true 12 3 40;
-             SConn true; SAsyncDrop true 11; SAsyncPoll true 12; SAsyncPoll true 12] in
+             SConn true BIG; SAsyncDrop true 11; SAsyncPoll true 12; SAsyncPoll true 12] in
   snd (run ex_cfg (init []) ts) =
     [RCode 0; RCode 0; RUser (UOpened 1); RCode 0; RCode 0; RCode 4; RCode 4; RCode 0; RCode 0; RCode 0; RCode 5].
 Proof. vm_compute. reflexivity. Qed.
@@ -352,7 +352,7 @@ Proof. vm_compute. reflexivity. Qed.
    the protocol has executed it both Connections end on their next poll *)
 Example C12_example_clog :
   let ts := [SOpen true; SOpen false; SHandle true 128; SSync true 1 8; SSync true 2 8; SSync true 3 8; SSync true 4 8;
-             SCmd true; SConn true; SConn false] in
+             SCmd true; SConn true 0; SConn false BIG] in
   let '(s, rs) := run ex_cfg (init []) ts in
   skipn 3 rs = [RCode 0; RCode 0; RCode 1; RCode 1; RCode 1; RCode 1; RCode 1] /\
   e_fclog (gl s true) = [1] /\ e_alive (cn s true) = false /\ e_alive (cn s false) = false.
